@@ -17,3 +17,5 @@ mod c03;
 mod c06;
 #[cfg(kani)]
 mod c19;
+#[cfg(kani)]
+mod c08;
